@@ -81,7 +81,8 @@ class HeapMixin:
         # containers of different element kinds are different objects (a dict of
         # dicts never is one of its own values): the tag includes the element kinds
         if kind.is_list:
-            return self.class_id(f'list[{kind.elem!r}]')
+            # (a deque is not a list: `all:deque[T][*]` must not give new content to lists of T)
+            return self.class_id(f'{kind.name}[{kind.elem!r}]')
         if kind.is_set:
             return self.class_id(f'set[{kind.elem!r}]')
         if kind.is_dict:
